@@ -199,6 +199,25 @@ def r2(F, R):
                         R.bad("C09-R2", key, "%s @%s" % (rb.path, rb.loc()), "%s reads estimators %s, expected only %s" % (nm, sorted(used), sorted(want)))
         else:
             # deque strategy
+            # who may shrink the window: only switch() removes elements from the draw/gradient deques (a cap applied elsewhere would move the
+            # boundary between foreground and background without moving background_split)
+            SHRINK = ("pop_front", "pop_back", "truncate", "drain", "clear", "remove", "retain", "retain_mut", "split_off", "swap_remove_back", "swap_remove_front", "resize", "resize_with")
+            dq0 = {f["name"] for f in a["variants"][0]["fields"] if "VecDeque" in f["ty"]}
+            for ob in sorted(F.bodies.values(), key=lambda x: x.path):
+                oa = ob.parent.get("self_adt") or (F.bodies[ob.parent["fn"]].parent.get("self_adt") if ob.kind == "closure" and ob.parent.get("fn") in F.bodies else None)
+                if oa != adt or ob.path == b.path:
+                    continue
+                for bb, t in ob.calls():
+                    cp = strip_generics(t["callee"].get("path", ""))
+                    if "VecDeque" in cp and cp.split("::")[-1] in SHRINK and t["args"]:
+                        fl = {n[2] for n in vt_walk(ob.value(t["args"][0])) if n[0] == "field"} & dq0
+                        if fl and not F.callgraph().callers_of(ob.path) and ob.kind != "closure" and not ob.parent.get("trait"):
+                            R.ok("C09-R2", "%s:shrinks:%s" % (ob.path, sorted(fl)[0]), "%s @%s" % (ob.path, loc(t["span"])),
+                                 "%s of %s in a function no library code calls (an unused reset); it would be reported as soon as it gets a caller" % (cp.split("::")[-1], sorted(fl)))
+                        elif fl:
+                            R.bad("C09-R2", "%s:shrinks:%s" % (ob.path, sorted(fl)[0]), "%s @%s" % (ob.path, loc(t["span"])),
+                                  "%s removes elements from the window deque %s outside switch(): background_split no longer marks the start of the background window" % (
+                                      cp.split("::")[-1], sorted(fl)))
             pops = [(bb, t) for bb, t in b.calls() if strip_generics(t["callee"].get("path", "")).endswith("VecDeque::pop_front")]
             fields = set()
             for bb, t in pops:
